@@ -51,6 +51,9 @@ structure MonoArith (α : Type) [Scalar α] : Prop where
   neg_le_neg' : ∀ {a b : α}, a ≤ b → -b ≤ -a
   neg_nonneg' : ∀ {a : α}, a ≤ ofNat 0 → ofNat 0 ≤ -a
   neg_nonpos' : ∀ {a : α}, ofNat 0 ≤ a → -a ≤ ofNat 0
+  -- rounding is sign-symmetric (an equality for exact-then-round; in IEEE up to the sign of zero)
+  neg_add_le' : ∀ (a b : α), -(a + b) ≤ -a + -b
+  neg_sub_le' : ∀ (a b : α), -(a - b) ≤ b - a
   -- multiplication
   mul_nonneg' : ∀ {a b : α}, ofNat 0 ≤ a → ofNat 0 ≤ b → ofNat 0 ≤ a * b
   mul_nonpos_right' : ∀ {a b : α}, ofNat 0 ≤ a → b ≤ ofNat 0 → a * b ≤ ofNat 0
